@@ -8,6 +8,10 @@ tpl = open(f"{here}/PROMPT_TEMPLATE.txt").read()
 if N == "TWO":
     tpl = tpl.replace("produce THREE different", "produce TWO different").replace("The three changes must affect three different", "The two changes must affect two different") \
              .replace("for each change k in (1, 2, 3)", "for each change k in (1, 2)").replace("For each change k in (1, 2, 3)", "For each change k in (1, 2)").replace("summary of the three changes", "summary of the two changes")
+if N == "ONE":
+    tpl = tpl.replace("produce THREE different, realistic source changes (\"seeded bugs\")", "produce ONE realistic source change (a \"seeded bug\")") \
+             .replace("that each BREAK this property", "that BREAKS this property").replace("The three changes must affect three different clauses / code paths of the property; look", "Look") \
+             .replace("for each change k in (1, 2, 3)", "for the change (k = 1)").replace("For each change k in (1, 2, 3)", "For the change (k = 1)").replace("summary of the three changes", "summary of the change")
 os.makedirs(PD, exist_ok=True)
 for line in open("/verif/properties.jsonl"):
     p = json.loads(line)
